@@ -59,6 +59,12 @@ Theorem C07_call_monotone : forall meth bufsize v v' s k r rest,
 Proof. exact call_monotone. Qed.
 Print Assumptions C07_call_monotone.
 
+(* the form evaluated on the harness cases (own budget for the first head) is the same function *)
+Theorem C07_read_call2_same : forall meth bufsize v s,
+  read_call2 meth bufsize v v s = read_call meth bufsize v s.
+Proof. exact read_call2_same. Qed.
+Print Assumptions C07_read_call2_same.
+
 (* ---------- the body stays a usable reader through every wrapping stage ---------- *)
 
 Theorem C07_stages_never_nil : forall st c p ce ct o, sound (pipeline st c p ce ct o) = true.
